@@ -835,3 +835,63 @@ def thermal_matrix(ctx):
            K.eq_val(lv.f(NN + bb), bp.f(bb, B_LOAD_VEC_BRANCHES_T)))
     ctx.check_safety(paths, req, "fn", kinds=("tiling", "shape", "mask"))
 
+
+
+@unit("C01", "results/dispatch", functions=["pandapipes.pf.result_extraction:extract_all_results"], engine="E1")
+def result_dispatch(ctx):
+    """extract_all_results hands ONE result dictionary -- built from the pit by get_basic_branch_results (contract: C09
+    units basic_results/*; for gases extended by the gas twins, C02 / C07) -- the options and the calculation mode to the
+    extract_results of EVERY component, once each, in component order"""
+    ctx.assume("A6")
+    RX_ = "pandapipes.pf.result_extraction"
+    for gas, use_numba in ((False, True), (True, True), (True, False)):
+        calls, made = [], {}
+
+        class _Meth:
+            def __init__(self, comp):
+                self.comp = comp
+
+            def call(self, ev, args, kwargs, lineno):
+                calls.append((self.comp, list(args)))
+                return None
+        comps = []
+        for nm in ("c0", "c1", "c2"):
+            o = E.Obj(nm, {})
+            o.attrs["extract_results"] = _Meth(nm)
+            comps.append(o)
+        opts = {"use_numba": use_numba}
+        net = K.NetObj({"component_list": comps, "_options": opts, "fluid": K.make_fluid(gas),
+                        "_pit": {"branch": K.sym_pit("branch_pit", NB, NCB), "node": K.sym_pit("node_pit", NN, NCN)}})
+
+        def c_basic(ev, a, k):
+            made["basic"] = {"v_mps": "v", "p_from": "pf", "p_to": "pt", "from_nodes": "fn", "to_nodes": "tn", "dp_frict_loss": K.sym_arr("dpf", NB, "f"),
+                             "mf_from": "mf"}
+            made["args"] = list(a)
+            return made["basic"]
+        gas_calls = []
+
+        def c_gas(tag):
+            def c(ev, a, k):
+                gas_calls.append((tag, list(a)))
+                return tuple("g%d" % i for i in range(9))
+            return c
+        mode = "sequential"
+        paths = T.run_paths(ctx, RX_ + ":extract_all_results", lambda: ([net, mode], {}), contracts={
+            RX_ + ":get_basic_branch_results": c_basic, RX_ + ":get_branch_results_gas": c_gas("numpy"),
+            RX_ + ":get_branch_results_gas_numba": c_gas("numba")})
+        tag = ("gas" if gas else "liquid") + ("/numba" if use_numba else "/numpy")
+        ok = len(paths) == 1 and paths[0].exc is None
+        ctx.decided("%s/single-path" % tag, "cover", ok, witness=str([str(p.exc) for p in paths]))
+        if not ok:
+            continue
+        ctx.decided("%s/every-component-once-in-order" % tag, "ensures", [c[0] for c in calls] == ["c0", "c1", "c2"], witness=str([c[0] for c in calls]))
+        ctx.decided("%s/basic-results-from-the-pit" % tag, "ensures",
+                    len(made.get("args", [])) == 3 and made["args"][0] is net and made["args"][1] is net.items["_pit"]["branch"]
+                    and made["args"][2] is net.items["_pit"]["node"], witness=repr(made.get("args")))
+        ctx.decided("%s/same-dictionary-options-and-mode-for-all" % tag, "ensures",
+                    all(a[0] is net and a[1] is opts and a[2] is made["basic"] and a[3] == mode for _, a in calls), witness=repr([a[1:] for _, a in calls][:1]))
+        if gas:
+            ctx.decided("%s/gas-post-processing-by-the-selected-engine" % tag, "ensures",
+                        [g[0] for g in gas_calls] == ["numba" if use_numba else "numpy"], witness=str([g[0] for g in gas_calls]))
+        else:
+            ctx.decided("%s/no-gas-post-processing" % tag, "ensures", not gas_calls, witness=str(gas_calls))
